@@ -65,7 +65,9 @@ class ObjectPool(Generic[T]):
         obj = self.get()
         try:
             yield obj
-        except Exception:
+        except BaseException:
+            # Not only Exception: an interrupted caller (KeyboardInterrupt,
+            # gevent.Timeout...) must not leave the object checked out forever.
             if not destroy_on_fail:
                 self.release(obj)
             else:
